@@ -95,7 +95,21 @@ class safe:
         try:
             return self.func(x)
         except Exception as e:  # noqa: BLE001
-            return {"__error__": type(e).__name__, "text": str(e)[:2000], "tb": traceback.format_exc()[-3000:]}
+            return {"__error__": type(e).__name__, "text": str(e)[:2000], "tb": traceback.format_exc()[-8000:]}
+
+
+class HarnessError(RuntimeError):
+    pass
+
+
+def impl_error(r) -> bool:
+    """True iff `r` is an exception raised from inside /repo (the real code), as opposed to a harness bug.
+    A harness bug must never be reported as a violation: it raises HarnessError (exit 2)."""
+    if not (isinstance(r, dict) and "__error__" in r):
+        return False
+    if 'File "/repo/' in r.get("tb", ""):
+        return True
+    raise HarnessError(f"harness-side exception {r['__error__']}: {r['text'][:500]}\n{r.get('tb', '')[-1500:]}")
 
 
 # --------------------------------------------------------------------------- Lean
